@@ -13,13 +13,21 @@ from `incoming_requests`, cancellations reaching running handlers, log records a
 above by kind; plus the multiset of response datagrams that reach the wire — are diffed with what
 the real stack did.
 
+A second level serves the same sites and schedules over CoAP-over-TCP: `Context.create_server_context(
+transports=["tcpserver"])` with the real `TCPServer` / `TcpConnection` on fake asyncio transports (`c09_tcp`),
+response sizes on every RFC 8323 length boundary; the model then composes the rendering side with C15's model
+of the TCP token interface and the diff covers every byte the server writes after its CSM.
+
 Oracle (independent; written from the property text, uses only the case and the datagrams on the
-fake socket): per (peer, token) the first transmissions carrying a response code are exactly the
+fake socket, resp. the messages the harness's own RFC 8323 reader finds in the connections' byte streams): per (peer, token) the first transmissions carrying a response code are exactly the
 expected ones (count, code, payload), 5.00 for failures has an empty payload, no datagram
 contains any of the secret markers put into exception texts / wrong return values, nothing
 escapes into the event loop or the transport.
 """
+import copy
+
 import c09_run
+import c09_tcp
 import vloop
 from common import compare, load_corpus, HarnessError
 
@@ -27,9 +35,10 @@ RULE = ("case = site (none | 1..5 generated resources at paths of 0..3 segments,
         "random subset of GET/POST/PUT/DELETE/FETCH/PATCH/iPATCH) + 1..40 request datagrams (CON/NON, "
         "codes 1..7 and unassigned 8..31, known/unknown paths, tokens of 0..8 bytes, No-Response "
         "absent/0/2/8/16/24/26/127) from 4 peers at ticks that make handlers overlap; handler outcome = "
-        "returns a message (code absent / any response code, own No-Response) | raises one of the "
+        "returns a message (code absent / any response code / a code that is no response code: EMPTY, request, "
+        "class 1/6/7; own No-Response; the same Message object as last time) | raises one of the "
         "RenderableError classes of error.py (with and without diagnostic) or a harness subclass | "
-        "raises one of 18 other exceptions with a secret text | returns None/str/int/bytes/dict/list/"
+        "raises one of 20 other exceptions with a secret text (two of them outside the Exception hierarchy) | returns None/str/int/bytes/dict/list/"
         "tuple/float/object/type (also from a resource with its own render() and no blockwise assembly, "
         "where the value reaches the pipe unchecked) | raises a renderable error whose to_message raises / "
         "returns None / returns a str or tuple | "
@@ -38,14 +47,26 @@ RULE = ("case = site (none | 1..5 generated resources at paths of 0..3 segments,
         "anyway; peers ACK separate responses at once, after one retransmission, or RST them. "
         "Boundary tables enumerated in full: methods x code given/absent x CON/NON; every renderable "
         "class; every exception / wrong-return / failing-renderer kind; No-Response values x response "
-        "classes; delays around the empty ACK; override reactions. Non-trivial: at least one response "
-        "on the wire and one non-2.xx outcome or two requests in flight at once.")
+        "classes; delays around the empty ACK; override reactions; codes outside the response classes (returned and "
+        "rendered); one pre-built response object handed out to CON, NON and slow requests in turn. TCP level: the "
+        "same tables with every peer a CoAP-over-TCP connection (CSM with 1 MiB / default message size), plus "
+        "response bodies (options + marker + payload) of 0,2,3,11..15,267..271,65803..65807 bytes x token lengths "
+        "0..8 x (returned payload quick/slow, diagnostic of a library / own renderable error, ETag + payload) next to "
+        "failing handlers, and random cases with sizes drawn around those boundaries. Non-trivial: at least one "
+        "response on the wire and one non-2.xx outcome or two requests in flight at once.")
 TRUSTED = ["virtual-clock event loop and fake-socket UDP stack of the harness (vloop.py, netsim.py)",
+           "fake asyncio transports and the harness's own RFC 8323 framing code (c09_tcp.py); loop.create_server "
+           "replaced by a function handing the protocol factory to the harness",
            "harness-side instrumentation of instances (recording dict for incoming_requests, wrapper on "
            "the TokenManager's token_interface.send_message, logging handler, task factory)"]
 ASSUMPTIONS = [
-    "handler exceptions are Exception subclasses or CancelledError; KeyboardInterrupt/SystemExit stop the process",
-    "requests carry no Block1/Block2/Observe options and responses fit one message (C06/C08 cover those)",
+    "KeyboardInterrupt / SystemExit / GeneratorExit raised by a handler are not exceptions of the request: asyncio "
+    "ends the loop (the task) with them; every other exception class, inside or outside the Exception hierarchy, is generated",
+    "requests carry no Block1/Block2/Observe options and responses fit one message (C06/C08 cover those); over TCP "
+    "the limit is what the peer's CSM allows (aiocoap's maximum_payload_size, read from the connection)",
+    "resources answer through render / render_<method>; a resource implementing render_to_pipe itself is the "
+    "responding side of the pipe protocol (returning without an event is how the library's own OSCORE wrapper stays silent)",
+    "a response object handed out again is not in use by the message layer any more (its CON exchange has ended)",
     "a RenderableError's repr() and to_message() are the only application code run while converting it "
     "(either failing, or to_message returning anything but a message with a response code, is a failing renderer)",
     "peers acknowledge separate CON responses (otherwise the message layer gives up on the peer, C03)",
@@ -71,6 +92,10 @@ RENDERABLE = {
 # classes whose constructor does not take the diagnostic (NoResource.__init__ takes none; in
 # NoRequestInterface RuntimeError.__init__ comes first in the MRO): raised without arguments
 FIXED_TEXT = ("NoResource", "NoRequestInterface")
+# codes a message can carry that are no response codes: EMPTY, requests, classes 1, 6, 7 (boundaries of 2.00..5.31)
+NON_RESPONSE_CODES = [0, 1, 2, 31, 32, 63, 192, 224, 225, 255]
+# lengths of options + payload marker + payload at which the RFC 8323 framing changes its form (and neighbours)
+TCP_BODY_LENGTHS = [0, 2, 3, 11, 12, 13, 14, 15, 267, 268, 269, 270, 271, 65803, 65804, 65805, 65806, 65807]
 PATHS = [[], ["a"], ["b"], ["a", "b"], ["x", "y", "z"], ["r1"], ["sensors", "temp"], ["0"]]
 NR_VALUES = [None, None, None, 0, 2, 8, 16, 24, 26, 127]
 
@@ -84,16 +109,14 @@ def hx(b):
 def outcome_token(h):
     o = h["o"]
     if o == "ret":
-        return "r.%s.%s.%s" % ("-" if h["code"] is None else h["code"], h["payload"] or "-",
+        if h.get("etag") is not None:
+            return None          # the model's responses carry no options of their own: judged by the oracle only
+        return "r.%s.%s.%s" % ("-" if h["code"] is None else h["code"],
+                               ("78*%d" % h["fill"]) if "fill" in h else (h["payload"] or "-"),
                                "-" if h["nr"] is None else h["nr"])
     if o == "rend":
-        if h["cls"] in ("Direct", "Custom"):
-            code = h["code"]
-            text = h["msg"] if h["msg"] is not None else h.get("default", "")
-        else:
-            code, default = RENDERABLE[h["cls"]]
-            text = default if (h["msg"] is None or h["cls"] in FIXED_TEXT) else h["msg"]
-        return "e.%d.%s" % (code, hx(text.encode()))
+        code, text = rend_code_text(h)
+        return "e.%d.%s" % (code, ("65*%d" % h["fill"]) if "fill" in h else hx(text.encode()))
     if o == "exc":
         return "x." + hx(c09_run.secret(h["k"]).encode())
     if o == "nonmsg":
@@ -109,6 +132,23 @@ def outcome_token(h):
     if o == "hang":
         return "h"
     raise HarnessError("unknown outcome " + o)
+
+
+def rend_code_text(h):
+    """code and diagnostic text a `rend` outcome stands for (the oracle's own table, not aiocoap's)"""
+    if h["cls"] in ("Direct", "Custom"):
+        code = h["code"]
+        text = h["msg"] if h["msg"] is not None else h.get("default", "")
+    else:
+        code, default = RENDERABLE[h["cls"]]
+        text = default if (h["msg"] is None or h["cls"] in FIXED_TEXT) else h["msg"]
+    if "fill" in h:
+        text = "e" * h["fill"]
+    return code, text
+
+
+def is_tcp(case):
+    return case.get("transport") == "tcp"
 
 
 def find_handler(case, rq):
@@ -165,8 +205,13 @@ def schedule(case, stops=()):
     return evs, info
 
 
-def model_line(case, evs):
-    parts = ["C09", "nosite" if case["site"] is None else "site"]
+def model_line(case, evs, obs=None):
+    parts = ["C09"]
+    if is_tcp(case):
+        # the largest payload the peers' CSM lets a response carry in one message (beyond it the block-wise layer
+        # takes over, C06): aiocoap's policy, read from the connections like EMPTY_ACK_DELAY is from the tuning
+        parts.append("tcp.%d" % min(obs["max_payload"].values()))
+    parts.append("nosite" if case["site"] is None else "site")
     for r in case["site"] or []:
         if r.get("site_only"):
             continue                        # an empty nested site: nothing is registered there
@@ -189,8 +234,11 @@ def impl_string(evs, obs):
             groups[tick].append(item)
         else:
             stray.append("STRAY@%d:%s" % (tick, item))
-    wire = ["%s:%d:%s" % (w["token"] or "-", w["code"], w["payload"] or "-")
-            for w in obs["wire"] if 64 <= w["code"] < 192 and not w["retransmission"]]
+    if obs["wire"] and obs["wire"][0]["mtype"] == "TCP":
+        wire = [w["raw"] for w in obs["wire"]]        # every message the server wrote after its CSM, byte for byte
+    else:
+        wire = ["%s:%d:%s" % (w["token"] or "-", w["code"], w["payload"] or "-")
+                for w in obs["wire"] if 64 <= w["code"] < 192 and not w["retransmission"]]
     out = "|".join(";".join(sorted(groups[t])) for t in ticks)
     if stray:
         out += "|" + ";".join(sorted(stray))
@@ -228,16 +276,18 @@ def expected(case, rq, inf):
         return None
     if o == "ret":
         code = h["code"] if h["code"] is not None else default_success(rq["code"])
+        if not 64 <= code < 192:
+            # a message that is no response (request code, empty, signalling) answers nothing: as unusable as a
+            # value that is no message at all
+            return ("badcode", 160, b"")
         nr = h["nr"] if h["nr"] is not None else rq["nr"]
         if no_response_suppresses(nr, code):
             return None
-        return ("ret", code, bytes.fromhex(h["payload"]))
+        return ("ret", code, c09_run.ret_payload(h))
     if o == "rend":
-        if h["cls"] in ("Direct", "Custom"):
-            text = h["msg"] if h["msg"] is not None else h.get("default", "")
-            return ("rend", h["code"], text.encode())
-        code, default = RENDERABLE[h["cls"]]
-        text = default if (h["msg"] is None or h["cls"] in FIXED_TEXT) else h["msg"]
+        code, text = rend_code_text(h)
+        if not 64 <= code < 192:
+            return ("rfail", 160, b"")                # an error renderer that produces no response has failed
         return ("rend", code, text.encode())
     if o == "unenc" and h.get("how") == "uncopyable":
         return ("ret", 69, b"ok")                     # a message that can be sent is sent -- once
@@ -266,6 +316,21 @@ def oracle(case, obs):
                 return ("response %d for token %s to peer %d went out as %s with Message ID %d, which is not the "
                         "Message ID of that peer's confirmable request on the token"
                         % (w["code"], w["token"] or "-", w["remote"], w["mtype"], w["mid"])), "mtype:stray-ack"
+    return judge_responses(case, obs)
+
+
+def short(x):
+    """payloads in verdict texts: long ones by length and beginning"""
+    if isinstance(x, (bytes, bytearray)):
+        return repr(bytes(x)) if len(x) <= 48 else "<%d bytes %r...>" % (len(x), bytes(x[:12]))
+    if isinstance(x, (list, tuple)):
+        return "[" + ", ".join(short(y) for y in x) + "]" if isinstance(x, list) else \
+            "(" + ", ".join(short(y) for y in x) + ")"
+    return repr(x)
+
+
+def judge_responses(case, obs):
+    """count, code and payload of the final responses per (peer, token) against the property's table"""
     _, info = schedule(case)
     want = {}
     kinds = {}
@@ -285,8 +350,8 @@ def oracle(case, obs):
         e = want.get(key, [])
         tag = "+".join(sorted(set(kinds.get(key, ["?"]))))
         if len(g) != len(e):
-            return ("peer %d token %s: %d final response(s) on the wire %r, the property promises %d %r"
-                    % (key[0], key[1] or "-", len(g), g, len(e), [(x[1], x[2]) for x in e])), "count:" + tag
+            return ("peer %d token %s: %d final response(s) on the wire %s, the property promises %d %s"
+                    % (key[0], key[1] or "-", len(g), short(g), len(e), short([(x[1], x[2]) for x in e]))), "count:" + tag
         if sorted(c for c, _ in g) != sorted(x[1] for x in e):
             return ("peer %d token %s: response codes %r, expected %r"
                     % (key[0], key[1] or "-", [c for c, _ in g], [x[1] for x in e])), "code:" + tag
@@ -295,9 +360,45 @@ def oracle(case, obs):
         for (kind, code, pay) in sorted(e, key=lambda x: x[2] is None):
             cands = [x for x in rest if x[0] == code and (pay is None or x[1] == pay)]
             if not cands:
-                return ("peer %d token %s: the %s response %d should carry payload %r, got %r"
-                        % (key[0], key[1] or "-", kind, code, pay, [x for x in rest if x[0] == code])), "payload:" + kind
+                return ("peer %d token %s: the %s response %d should carry payload %s, got %s"
+                        % (key[0], key[1] or "-", kind, code, short(pay), short([x for x in rest if x[0] == code]))), "payload:" + kind
             rest.remove(cands[0])
+    return "", None
+
+
+def oracle_tcp(case, obs):
+    """the same reading of the property for requests served over CoAP-over-TCP: the messages are what this
+    harness's own RFC 8323 reader finds in the byte stream the server wrote to each connection"""
+    for e in obs["errors"]:
+        return "exception escaped into the transport: " + e, "escape:transport"
+    for e in obs["task_errors"]:
+        return "a rendering task died with " + e, "escape:task:" + e.split(":")[0]
+    for e in obs["loop_exceptions"]:
+        return "exception reached the event loop: " + e, "escape:loop"
+    for pr in obs["problems"]:
+        # a stream that cannot be read, a connection the server gave up or aborted: one request's outcome has
+        # taken the answers of all the others on that connection with it
+        return "over TCP: " + pr, "tcp:stream"
+    for w in obs["wire"]:
+        if c09_run.SECRET in bytes.fromhex(w["payload"]) or any(c09_run.SECRET in bytes.fromhex(v) for _, v in w["options"]):
+            return ("exception text / wrong return value leaked into a message to peer %d: code %d payload %r"
+                    % (w["remote"], w["code"], bytes.fromhex(w["payload"])[:60])), "leak"
+        if not 64 <= w["code"] < 192:
+            return ("the server wrote a message with code %d (no response) and token %s to peer %d"
+                    % (w["code"], w["token"] or "-", w["remote"])), "tcp:non-response"
+    v, k = judge_responses(case, obs)
+    if v:
+        return "over TCP: " + v, k
+    # options a handler put on its message travel with it
+    _, info = schedule(case)
+    for rq, inf in zip(case["requests"], info):
+        h = inf["h"]
+        if h is not None and h["o"] == "ret" and h.get("etag") is not None and expected(case, rq, inf) is not None:
+            for w in obs["wire"]:
+                if (w["remote"], w["token"]) == (rq["remote"], rq["token"]) and (4, h["etag"]) not in \
+                        [tuple(o) for o in w["options"]]:
+                    return ("over TCP: peer %d token %s: the returned message's ETag %s is not on the response (options %r)"
+                            % (rq["remote"], rq["token"] or "-", h["etag"], w["options"])), "options:ret"
     return "", None
 
 
@@ -314,10 +415,13 @@ class Gen:
         self.k += 1
         return self.k
 
-    def token(self):
-        """a fresh token of 0..8 bytes (distinct within the case)"""
+    def token(self, n=None):
+        """a fresh token (distinct within the case) of n bytes, by default 1..8"""
         self.tok += 1
-        n = self.rng.choice([1, 1, 2, 2, 3, 4, 8, 8])
+        if n == 0:
+            return ""
+        if n is None:
+            n = self.rng.choice([1, 1, 2, 2, 3, 4, 8, 8])
         return (self.tok * 2654435761 % (1 << (8 * n))).to_bytes(n, "big").hex() if n < 8 else \
             (self.tok * 0x9E3779B97F4A7C15 % (1 << 64)).to_bytes(8, "big").hex()
 
@@ -335,7 +439,8 @@ class Gen:
             d = rng.choice([0, 0, 0, 1, 977, EAD - 1, EAD, EAD + 1, 3 * EAD, 5 * EAD + 13])
         h = {"o": kind, "d": 0 if kind == "hang" else d, "stubborn": rng.random() < 0.3}
         if kind == "ret":
-            h["code"] = rng.choice([None, None, None, 65, 66, 67, 68, 69, 95, 128, 132, 160, 163])
+            h["code"] = rng.choice([None, None, None, None, 65, 66, 67, 68, 69, 95, 128, 132, 160, 163, 64, 191,
+                                    rng.choice(NON_RESPONSE_CODES)])
             h["payload"] = rng.choice(["", "6869", rng.randbytes(rng.randrange(1, 40)).hex(),
                                        rng.randbytes(rng.choice([200, 1000, 1024])).hex()])
             h["nr"] = rng.choice([None, None, None, None, 0, 2, 8, 16, 26])
@@ -344,10 +449,10 @@ class Gen:
             h["cls"] = cls
             h["msg"] = rng.choice([None, "diag %d" % rng.randrange(100), "", "Grüße ✓"])
             if cls == "Direct":
-                h["code"] = rng.choice([128, 132, 143, 160, 165, 95])
+                h["code"] = rng.choice([128, 132, 143, 160, 165, 95, 2])
                 h["msg"] = h["msg"] or "direct"
             if cls == "Custom":
-                h["code"] = rng.choice([129, 159, 191, 64])
+                h["code"] = rng.choice([129, 159, 191, 64, 0, 1])
                 h["default"] = "custom default"
         elif kind == "exc":
             h["exc"] = rng.choice(c09_run.EXC_KINDS)
@@ -416,6 +521,22 @@ class Gen:
         return fix_collisions(case)
 
 
+def random_tcp_case(gen):
+    rng = gen.rng
+    c = gen.random_case()
+    csm = rng.choice(["big", "big", "plain"])
+    for r in c["site"] or []:
+        for h in r["handlers"].values():
+            if h["o"] in ("ret", "rend") and rng.random() < 0.35:
+                L = rng.choice([n for n in TCP_BODY_LENGTHS if csm == "big" or n < 1000])
+                h["fill"] = max(L - 1 + rng.choice([0, 0, 0, -1, 1]), 0)
+                if h["o"] == "rend" and h["cls"] in FIXED_TEXT:
+                    del h["fill"]               # these classes take no diagnostic
+    c = as_tcp(c, csm)
+    c["peers"] = {}
+    return c
+
+
 def fix_collisions(case):
     """keep stop and completion of one request on different ticks (asyncio orders equal deadlines
     arbitrarily) and never override a request in the tick it arrives"""
@@ -445,8 +566,8 @@ def boundary_cases(gen):
     rng = gen.rng
     M = list(range(1, 8))
 
-    def pack(site, reqs, peers=None):
-        cases.append(fix_collisions({"site": site, "requests": reqs, "peers": peers or {}}))
+    def pack(site, reqs, peers=None, **extra):
+        cases.append(fix_collisions(dict({"site": site, "requests": reqs, "peers": peers or {}}, **extra)))
 
     # 1. method x code given/absent x CON/NON, plus unassigned request codes and unknown paths
     site = [{"path": ["d"], "handlers": {str(m): {"o": "ret", "d": 0, "stubborn": False, "code": None,
@@ -623,7 +744,7 @@ def boundary_cases(gen):
                     for i, m in enumerate(order):
                         reqs.append(gen.request(t, 1, m, ["g"], mtype=mts[i % 3], nr=None))
                         t += gap
-                    pack(site, reqs, {"1": policy})
+                    pack(site, reqs, {"1": policy}, udp_only=True)
     # 8. a handler whose message cannot be serialised (str payload, option value out of range), quick and slow,
     #    CON and NON, with healthy slow requests of the same and of another peer in flight and afterwards:
     #    one bare 5.00 for it, and nobody else is affected (oracle only)
@@ -659,28 +780,146 @@ def boundary_cases(gen):
                     gen.request(90, 0, 3, ["v"], mtype="CON", nr=None),
                     gen.request(60 + 10 * EAD, 0, 3, ["v"], mtype="NON", nr=None)]
             pack(site, reqs, {"0": policy, "1": "ack"})
+    # 9. a returned message (and an error renderer's message) whose code is no response code -- EMPTY, request
+    #    codes, classes 1, 6 and 7, and the two ends of the response range for contrast -- quick and slow, CON and
+    #    NON, then a healthy request of the same peer
+    site = []
+    reqs = []
+    t = 0
+    for n, code in enumerate(NON_RESPONSE_CODES + [64, 191]):
+        site.append({"path": ["q", str(n)], "handlers": {
+            "1": {"o": "ret", "d": 0, "stubborn": False, "code": code, "payload": "6f6f7073", "nr": None},
+            "2": {"o": "ret", "d": 3 * EAD, "stubborn": False, "code": code, "payload": "", "nr": None},
+            "3": {"o": "rend", "d": 0, "stubborn": False, "cls": "Custom", "msg": None, "code": code,
+                  "default": "custom default"},
+            "4": {"o": "rend", "d": 3 * EAD, "stubborn": False, "cls": "Direct", "msg": "direct", "code": code},
+            "5": {"o": "ret", "d": 0, "stubborn": False, "code": None, "payload": "6f6b", "nr": None}}})
+        for mt in ("CON", "NON"):
+            for m in (1, 2, 3, 4, 5):
+                t += 60
+                reqs.append(gen.request(t, n % 4, m, ["q", str(n)], mtype=mt, nr=None))
+    pack(site, reqs)
+    # 10. a resource that hands out ONE pre-built Message object for every request (from two of its handlers, a
+    #     quick and a slow one with the same default code): piggy-backed first, then to a NON request, to a CON
+    #     request that has already got its empty ACK, piggy-backed again; the other order; two peers in turn.
+    #     Every use ends (the peers acknowledge separate responses at once) before the next begins: an object
+    #     handed out again while the message layer still retransmits it is the application changing a message the
+    #     message layer owns (DESIGN section 7, position held with C03)
+    for code in (None, 69):
+        for first in ("CON", "NON"):
+            site = [{"path": ["st"], "handlers": {
+                "1": {"o": "ret", "d": 0, "stubborn": False, "code": code, "payload": "737461746963", "nr": None,
+                      "shared": "page"},
+                "5": {"o": "ret", "d": 3 * EAD, "stubborn": False, "code": code, "payload": "737461746963",
+                      "nr": None, "shared": "page"}}}]
+            order = [(1, first, 0), (1, "NON", 0), (5, "CON", 0), (1, "CON", 1), (5, "NON", 1), (1, "CON", 0),
+                     (5, "CON", 1), (1, "NON", 1), (1, "CON", 1)]
+            reqs = []
+            t = 50
+            for m, mt, peer in order:
+                reqs.append(gen.request(t, peer, m, ["st"], mtype=mt, nr=None))
+                t += 6 * EAD
+            pack(site, reqs, {"0": "ack", "1": "ack"})
+    return cases
+
+
+def as_tcp(case, csm="big"):
+    """the same site and schedule, the requests arriving over CoAP-over-TCP connections (one per peer)"""
+    c = copy.deepcopy(case)
+    c["transport"] = "tcp"
+    c["csm"] = csm
+    for rq in c["requests"]:
+        rq["mc"] = False
+        rq["mtype"] = "TCP"
+    return fix_collisions(c)
+
+
+def tcp_boundary_cases(gen, udp_cases):
+    """the CoAP-over-TCP level, enumerated in full in every tier"""
+    cases = []
+    rng = gen.rng
+    # T1. response sizes on the RFC 8323 framing boundaries x token lengths (Len and TKL share the first byte) x the
+    #     kind of outcome the size comes from: returned payload (code absent / given, quick / slow), diagnostic of a
+    #     raised renderable error (library class / own renderer); every failing kind next to them
+    for csm, lengths in (("big", TCP_BODY_LENGTHS), ("plain", [n for n in TCP_BODY_LENGTHS if n < 1000])):
+        site = []
+        reqs = []
+        t = 0
+        for n, L in enumerate(lengths):
+            fill = max(L - 1, 0)
+            site.append({"path": ["z", str(L)], "handlers": {
+                "1": {"o": "ret", "d": 0, "stubborn": False, "code": None, "fill": fill, "nr": None},
+                "2": {"o": "rend", "d": 0, "stubborn": False, "cls": "BadRequest", "msg": "", "fill": fill},
+                "5": {"o": "ret", "d": 3 * EAD, "stubborn": False, "code": 69, "fill": fill, "nr": None},
+                "3": {"o": "rend", "d": 3 * EAD, "stubborn": False, "cls": "Custom", "msg": "", "fill": fill,
+                      "code": 159, "default": "custom default"},
+                "4": {"o": "exc", "d": 0, "stubborn": False, "exc": "ValueError", "k": gen.secret_k()},
+                "6": {"o": "nonmsg", "d": 0, "stubborn": False, "val": "str", "k": gen.secret_k()},
+                "7": {"o": "rfail", "d": 0, "stubborn": False, "how": "raises", "k": gen.secret_k()}}})
+            for m, tkls in ((1, (0, 8)), (2, (0, 8)), (5, (1, 5)), (3, (2, 7)), (4, (0,)), (6, (3,)), (7, (8,))):
+                for tkl in tkls:
+                    t += 50
+                    reqs.append(gen.request(t, (t // 50) % 4, m, ["z", str(L)], mtype="TCP", nr=None,
+                                            token=gen.token(tkl)))
+        cases.append(fix_collisions({"site": site, "requests": reqs, "peers": {}, "transport": "tcp", "csm": csm}))
+    # T2. the same sizes made up of an option and a payload (ETag of 4 bytes: 5 bytes of options; oracle only)
+    site = []
+    reqs = []
+    t = 0
+    for L in [5] + [n for n in TCP_BODY_LENGTHS if n >= 7]:
+        site.append({"path": ["y", str(L)], "handlers": {
+            "3": {"o": "ret", "d": 0, "stubborn": False, "code": 68, "fill": max(L - 6, 0), "nr": None,
+                  "etag": "a1b2c3d4"},
+            "1": {"o": "ret", "d": 2 * EAD, "stubborn": False, "code": None, "fill": max(L - 6, 0), "nr": None,
+                  "etag": "00ff00ff"}}})
+        for m, tkl in ((3, 0), (3, 8), (1, 4)):
+            t += 50
+            reqs.append(gen.request(t, (t // 50) % 4, m, ["y", str(L)], mtype="TCP", nr=None, token=gen.token(tkl)))
+    cases.append(fix_collisions({"site": site, "requests": reqs, "peers": {}, "transport": "tcp", "csm": "big"}))
+    # T3. every boundary table of the UDP level that is not about the message layer (retransmission, overlapping
+    #     separate responses): all outcomes x methods x paths x No-Response x delays x overrides, over TCP
+    for c in udp_cases:
+        if not c.get("udp_only"):
+            cases.append(as_tcp(c, csm=rng.choice(["big", "plain"])))
     return cases
 
 
 # --------------------------------------------------------------------------- run / replay
 
 def observe(case):
-    return c09_run.run_case(case)
+    return c09_tcp.run_case(case) if is_tcp(case) else c09_run.run_case(case)
+
+
+def judge(case, obs):
+    return oracle_tcp(case, obs) if is_tcp(case) else oracle(case, obs)
 
 
 def check_case(env, rep, case, lines, impls, kept):
     obs = observe(case)
     evs, info = schedule(case, obs["stops"])
-    if any(h["o"] == "unenc" or (h["o"] == "rfail" and h.get("how") == "unenc")
-           for r in case["site"] or [] for h in r["handlers"].values()):
+    hs = [h for r in case["site"] or [] for h in r["handlers"].values()]
+    if any(h["o"] == "unenc" or (h["o"] == "rfail" and h.get("how") == "unenc") for h in hs):
         rep.count("oracle-only:unencodable-response")
+    elif any(h.get("etag") is not None for h in hs):
+        rep.count("oracle-only:response-with-options")
     else:
-        lines.append(model_line(case, evs))
+        lines.append(model_line(case, evs, obs))
         impls.append(impl_string(evs, obs))
         kept.append(case)
-    verdict, key = oracle(case, obs)
+    verdict, key = judge(case, obs)
     if verdict:
         rep.oracle_fail(case, verdict, key=key)
+    rep.count("transport=" + ("tcp" if is_tcp(case) else "udp"))
+    if is_tcp(case):
+        # sizes of the bodies (options + marker + payload) the property promises, by RFC 8323 length form -- from
+        # the case, not from what the implementation wrote
+        for rq, inf in zip(case["requests"], info):
+            e = expected(case, rq, inf)
+            if e is not None and e[2] is not None:
+                n = (1 + len(e[2]) if e[2] else 0) + (1 + len(inf["h"]["etag"]) // 2 if inf["h"] and inf["h"].get("etag") else 0)
+                rep.count("tcp-len-form=" + ("nibble" if n < 13 else "8bit" if n < 269 else "16bit" if n < 65805 else "32bit"))
+                if n in (12, 13, 268, 269, 65804, 65805):
+                    rep.count("tcp-body-length=%d" % n)
     # distribution
     n_wire = sum(1 for w in obs["wire"] if 64 <= w["code"] < 192 and not w["retransmission"])
     kinds = set()
@@ -692,6 +931,11 @@ def check_case(env, rep, case, lines, impls, kept):
         rep.count("outcome=" + k)
         rep.count("method=%d" % rq["code"] if rq["code"] < 8 else "method=unassigned")
         rep.count("type=" + rq["mtype"])
+        if inf["h"] is not None and inf["h"]["o"] == "ret" and inf["h"]["code"] is not None \
+                and not 64 <= inf["h"]["code"] < 192:
+            rep.count("returned-code=non-response")
+        if inf["h"] is not None and inf["h"].get("shared"):
+            rep.count("shared-response-object")
         if inf["h"] is not None:
             d = inf["h"].get("d", 0)
             rep.count("delay=" + ("0" if d == 0 else "<ead" if d < EAD else "=ead" if d == EAD else ">ead"))
@@ -728,9 +972,12 @@ def run(env, rep):
     gen = Gen(env.rng)
     cases = [c["case"] for _, c in load_corpus("C09") if "case" in c]
     ncorpus = len(cases)
-    cases += boundary_cases(gen)
+    udp_tables = boundary_cases(gen)
+    cases += udp_tables
+    cases += tcp_boundary_cases(gen, udp_tables)
     nb = len(cases) - ncorpus
     cases += [gen.random_case() for _ in range(env.scale(1200, 25000))]
+    cases += [random_tcp_case(gen) for _ in range(env.scale(250, 5000))]
     lines, impls, kept = [], [], []
     for case in cases:
         check_case(env, rep, case, lines, impls, kept)
@@ -741,10 +988,15 @@ def run(env, rep):
     rep.exhaustive_parts.append(
         "%d boundary cases: methods x code given/absent x CON/NON x paths; no site; every renderable class; "
         "every exception / wrong-return / failing-renderer kind; No-Response table; delays around the "
-        "empty ACK; override reactions" % nb)
+        "empty ACK; override reactions; returned / rendered codes outside the response classes; one response "
+        "object handed out again; the same tables over CoAP-over-TCP plus response sizes on every RFC 8323 "
+        "length boundary x token lengths x kind of outcome" % nb)
     for need in ("outcome=ret", "outcome=rend", "outcome=exc", "outcome=nonmsg", "outcome=rfail",
                  "outcome=cancel", "outcome=hang", "outcome=unknown-path", "outcome=no-method",
-                 "outcome=nosite", "overridden", "delay=>ead", "retransmissions"):
+                 "outcome=nosite", "overridden", "delay=>ead", "retransmissions", "transport=tcp",
+                 "returned-code=non-response", "shared-response-object", "tcp-body-length=12",
+                 "tcp-body-length=13", "tcp-body-length=268", "tcp-body-length=269", "tcp-body-length=65804",
+                 "tcp-body-length=65805", "tcp-len-form=32bit"):
         if not rep.hist.get(need):
             raise HarnessError("generator did not produce any " + need)
 
@@ -754,4 +1006,4 @@ def replay(env, case):
     env.import_repo()
     from aiocoap.numbers.constants import TransportTuning
     EAD = vloop.ticks(vloop.q(TransportTuning().EMPTY_ACK_DELAY))
-    return oracle(case, observe(case))[0]
+    return judge(case, observe(case))[0]
